@@ -102,7 +102,7 @@ impl RetryPolicy {
         Fut: Future<Output = Result<T>>,
     {
         let mut attempt = 0;
-        let mut backoff = self.initial_backoff;
+        let mut backoff = self.initial_backoff.min(self.max_backoff);
 
         loop {
             match f().await {
@@ -134,10 +134,12 @@ impl RetryPolicy {
 
                     sleep(delay).await;
 
-                    // Increase backoff
+                    // Increase backoff (clamped to [0, max_backoff]; a negative product
+                    // would make Duration::from_secs_f64 panic)
                     backoff = Duration::from_secs_f64(
                         (backoff.as_secs_f64() * self.multiplier)
-                            .min(self.max_backoff.as_secs_f64()),
+                            .min(self.max_backoff.as_secs_f64())
+                            .max(0.0),
                     );
                 }
             }
